@@ -153,6 +153,21 @@ def clit (s : String) : P Unit := fun c =>
   let c := skipWs c
   if !c.pastEnd && startsWithCaseless c.rest s.toList then .ok () (advance c s.length) else .fail
 
+/-- keyword characters of `CaselessKeyword` (`(alphanums + "_$").upper()`, tested on `ch.upper()`) -/
+def isKwIdent (c : Char) : Bool :=
+  let u := pyUpper1 c
+  ('A' ≤ u && u ≤ 'Z') || isDigit u || u = '_' || u = '$'
+
+/-- `CaselessKeyword(s)`: caseless match that is neither preceded nor followed by a keyword character -/
+def ckw (s : String) : P Unit := fun c0 =>
+  let c := skipWs c0
+  if !c.pastEnd && startsWithCaseless c.rest s.toList then
+    let prevOk := match c.prev with | none => true | some p => !isKwIdent p
+    let c' := advance c s.length
+    let nextOk := match c'.rest with | [] => true | x :: _ => !isKwIdent x
+    if prevOk && nextOk then .ok () c' else .fail
+  else .fail
+
 /-- `Word(chars)` without whitespace skipping: a maximal non-empty run -/
 def wordRaw (p : Char → Bool) : P Str := fun c =>
   let w := c.rest.takeWhile p
